@@ -421,6 +421,8 @@ struct Collect {
     casts: Vec<(usize, usize, usize, String)>, // expr start, expr end, whole end, type text
     blocks_open: Vec<usize>,
     enum_loops: Vec<EnumLoop>,
+    rename_from: String,
+    rename_hits: Vec<(usize, usize, bool)>, // start, end, is_shorthand_field
 }
 
 #[derive(Clone)]
@@ -598,6 +600,32 @@ impl<'ast> Visit<'ast> for Collect {
     fn visit_lit_float(&mut self, l: &'ast syn::LitFloat) {
         let (s, e) = br(l.span());
         self.float_lits.push((s, e, l.to_string()));
+    }
+    fn visit_pat_ident(&mut self, p: &'ast syn::PatIdent) {
+        if !self.rename_from.is_empty() && p.ident == self.rename_from {
+            let (s, e) = br(p.ident.span());
+            self.rename_hits.push((s, e, false));
+        }
+        syn::visit::visit_pat_ident(self, p);
+    }
+    fn visit_expr_path(&mut self, p: &'ast syn::ExprPath) {
+        if !self.rename_from.is_empty() && p.qself.is_none() && p.path.segments.len() == 1 && p.path.segments[0].ident == self.rename_from {
+            let (s, e) = br(p.path.segments[0].ident.span());
+            self.rename_hits.push((s, e, false));
+        }
+        syn::visit::visit_expr_path(self, p);
+    }
+    fn visit_field_value(&mut self, f: &'ast syn::FieldValue) {
+        if f.colon_token.is_none() {
+            if let syn::Member::Named(id) = &f.member {
+                if !self.rename_from.is_empty() && *id == self.rename_from {
+                    let (s, e) = br(id.span());
+                    self.rename_hits.push((s, e, true));
+                    return; // the shorthand's expression is the same token
+                }
+            }
+        }
+        syn::visit::visit_field_value(self, f);
     }
     fn visit_lit_int(&mut self, l: &'ast syn::LitInt) {
         if l.suffix() == "f64" || l.suffix() == "f32" {
@@ -788,10 +816,11 @@ fn process_item(repo: &str, req: &Value, cache: &mut BTreeMap<String, (String, s
             block = None;
             // handled below through parsed_mac
             let b: &syn::Block = &parsed_mac.block;
-            return finish(req, cx, &src, file, sel, &fn_name, region_start, region_end, Some(b), dropped_attrs);
+            return finish(req, cx, &src, file, sel, &fn_name, region_start, region_end, Some(b), dropped_attrs, None);
         }
     }
-    finish(req, cx, &src, file, sel, &fn_name, region_start, region_end, block, dropped_attrs)
+    let sig_opt = match &found { Found::Fn { sig, .. } => Some(*sig), _ => None };
+    finish(req, cx, &src, file, sel, &fn_name, region_start, region_end, block, dropped_attrs, sig_opt)
 }
 
 #[allow(clippy::too_many_arguments)]
@@ -806,10 +835,33 @@ fn finish(
     region_end: usize,
     block: Option<&syn::Block>,
     dropped_attrs: Vec<String>,
+    sig: Option<&syn::Signature>,
 ) -> Result<Value, String> {
     let mut col = Collect::default();
+    if let Some(rv) = req["rename_var"].as_array() {
+        col.rename_from = rv[0].as_str().unwrap_or("").to_string();
+    }
+    if let Some(sg) = sig {
+        for inp in &sg.inputs {
+            if let syn::FnArg::Typed(pt) = inp {
+                col.visit_pat(&pt.pat);
+            }
+        }
+    }
     if let Some(b) = block {
         col.visit_block(b);
+    }
+    if let Some(rv) = req["rename_var"].as_array() {
+        let to = rv[1].as_str().unwrap_or("");
+        let hits = col.rename_hits.clone();
+        for (s_, e_, shorthand) in hits {
+            if shorthand {
+                cx.rep(s_, e_, &format!("{}: {}", col.rename_from, to));
+            } else {
+                cx.rep(s_, e_, to);
+            }
+            cx.count(&format!("RV(variable `{}` -> `{}`: name clashes with a Verus keyword)", col.rename_from, to));
+        }
     }
 
     // ---- rewrite rules
